@@ -27,7 +27,7 @@ pub fn plan(p: &EpParams) -> Plan {
     Plan {
         episodes: n,
         exhaustive: false,
-        rule: "burst episodes: 17-60 simultaneous calls (Ack/Modify/PullRI/GetSub/blocking Pull/ListTopicSubs) on one subscription and its topic, with Publish x1-3, optional DeleteSubscription / DeleteTopic / CreateSubscription / stream control messages; seeded yields at every mailbox site. Non-trivial: a mailbox was observed full (hook counter) and >=17 calls were in flight. Distinct: multiset of in-flight call kinds x which mailboxes saturated x outcome classes.".into(),
+        rule: "burst episodes: 17-60 simultaneous calls (Ack/Modify/PullRI/GetSub/blocking Pull/ListTopicSubs) on one subscription and its topic, with Publish x1-3, optional DeleteSubscription (one to three crossing deletes of the same subscription) / DeleteTopic / CreateSubscription / stream control messages; seeded yields at every mailbox site. Non-trivial: a mailbox was observed full (hook counter) and >=17 calls were in flight. Distinct: multiset of in-flight call kinds x which mailboxes saturated x outcome classes.".into(),
     }
 }
 
@@ -87,6 +87,13 @@ async fn episode(p: &EpParams, mt: bool) -> EpReport {
     let mut specials: Vec<&'static str> = Vec::new();
     if with_delete_sub {
         specials.push("DeleteSub");
+        // sometimes two (or three) deletes of the same subscription cross each other
+        if rng.chance(1, 3) {
+            specials.push("DeleteSub");
+            if rng.chance(1, 3) {
+                specials.push("DeleteSub");
+            }
+        }
     }
     if with_delete_topic {
         specials.push("DeleteTopic");
@@ -117,7 +124,7 @@ async fn episode(p: &EpParams, mt: bool) -> EpReport {
         // Ack IDs are scoped per subscription: ack/modify calls carry the target's
         // lease IDs and therefore go to the target only (the same numbers would hit
         // unrelated leases on another subscription).
-        let sub = if matches!(*kind, "Ack" | "Modify") || rng.chance(5, 6) { target.clone() } else { rng.pick(&subs).clone() };
+        let sub = if matches!(*kind, "Ack" | "Modify" | "DeleteSub") || rng.chance(5, 6) { target.clone() } else { rng.pick(&subs).clone() };
         let t2 = t.clone();
         let ids = lease_ids.clone();
         let secs = *rng.pick(&[0, 15, 600]);
